@@ -449,6 +449,7 @@ def run(ck):
                             if nm == 'strchr' and args[0] == 'cp': continue                                  # amortised: cp moves past the result
                             if nm in ('strncasecmp', 'strncmp', 'memcmp') and len(args) == 3 and re.search(r'\.length$|->length$', args[2]): continue   # bounded by a table entry
                             if nm in ('strncasecmp', 'strncmp', 'memcmp', 'strcmp', 'strcasecmp') and const_trip_loop(tu, fname, l): continue              # a constant number of bounded comparisons
+                            if nm in ('strncasecmp', 'strncmp', 'strcmp', 'strcasecmp') and any(re.search(r'(->|\.)domain$', a) for a in args[:2]): continue     # one operand is a table entry (a short constant string): the comparison stops at its terminator
                             ok = False; why = f'{nm}({", ".join(args)}) inside a loop is neither on the advancing pointer nor bounded by a table entry'
                 r68.instance(site if not ok else f'{key}:{fname}:loops', ok=ok, wclass='loop', what=f'{fname}: {why} ({where(l)})')
     # ---- R6.9 accumulators
@@ -487,6 +488,53 @@ def run(ck):
                         if not bounded: why.append(f'{x} := {e[2]} reaches the next iteration without an upper-bound test ({where(e[3])})')
                 r69.instance(f'{key}:{fname}:{x}', ok=not why, wclass='unbounded-accumulator', what=f'{fname}: ' + '; '.join(sorted(set(why))[:2]) + ': signed overflow (undefined behaviour) on a long enough digit run')
     if nacc == 0: raise AnalysisBroken('R6.9 found no accumulator at all (is_ipv4 multiplies byte_val by 10): the rule may be dead')
+    # ---- R6.10 subscripts of file-scope tables
+    r610 = ck.rule('R6.10', 'every subscript of a file-scope table is in range: a constant below the size, the induction variable of an enclosing `for (i = 0; i < K; i++)` with K <= size and no other write to i, or errors[eav->errcode] (errcode only ever holds enumerators below EEAV_MAX: C15 T15.1 / P15.1); any other index expression stops the check', 5)
+    sizes = {}
+    for key, tu in tus.items():
+        for name, d in tu.globals.items():
+            m = re.fullmatch(r'.+\[(\d+)\]', d.get('type', {}).get('qualType', ''))
+            if m: sizes[name] = max(sizes.get(name, 0), int(m.group(1)))
+    for key, tu in sorted(tus.items()):
+        for fname, f in tu.own_functions().items():
+            def visit(n, stack):
+                if n.get('kind') == 'ArraySubscriptExpr':
+                    base = astutil.strip(n['inner'][0]); idx = astutil.strip(n['inner'][1])
+                    if base.get('kind') == 'DeclRefExpr' and base['referencedDecl'].get('kind') == 'VarDecl' and base['referencedDecl']['name'] in tu.globals and '[' in tu.globals[base['referencedDecl']['name']].get('type', {}).get('qualType', ''):
+                        G = base['referencedDecl']['name']; size = sizes.get(G)
+                        site = f'{key}:{fname}:{G}[]@{astutil.line_of(n)}'
+                        eng = cfgpaths.Engine(tu, fname)
+                        it = eng.render(idx, cfgpaths.Path())
+                        ok = None; why = ''
+                        if re.fullmatch(r'\d+', it):
+                            ok = size is not None and int(it) < size; why = f'{G}[{it}] with {size} elements'
+                        elif idx.get('kind') == 'DeclRefExpr':
+                            v = idx['referencedDecl']['name']
+                            loops = [l for l in stack if l.get('kind') == 'ForStmt']
+                            for l in reversed(loops):
+                                cond = l['inner'][2] if len(l['inner']) > 2 else None
+                                if not cond or not cond.get('kind'): continue
+                                cs = eng.render(cond, cfgpaths.Path())
+                                m = re.fullmatch(r'\(' + re.escape(v) + r' (<|<=) (\d+)\)', cs)
+                                if not m: continue
+                                K = int(m.group(2)) + (1 if m.group(1) == '<=' else 0)
+                                # i starts at a non-negative constant and is only incremented by the loop's own step
+                                writes = [w for w in astutil.walk(l['inner'][-1]) if (w.get('kind') in ('BinaryOperator', 'CompoundAssignOperator') and (w.get('opcode') == '=' or w.get('kind') == 'CompoundAssignOperator') and astutil.strip(w['inner'][0]).get('kind') == 'DeclRefExpr' and astutil.strip(w['inner'][0])['referencedDecl']['name'] == v) or (w.get('kind') == 'UnaryOperator' and w.get('opcode') in ('++', '--') and astutil.strip(w['inner'][0]).get('kind') == 'DeclRefExpr' and astutil.strip(w['inner'][0])['referencedDecl']['name'] == v)]
+                                inc = l['inner'][3] if len(l['inner']) > 3 else None
+                                inc_ok = inc and inc.get('kind') == 'UnaryOperator' and inc.get('opcode') == '++'
+                                unsigned_or_zero = any(d.get('kind') == 'VarDecl' and d.get('name') == v and ('unsigned' in d['type']['qualType'] or 'size_t' in d['type']['qualType']) for d in astutil.walk(l['inner'][0])) if l['inner'][0] else False
+                                init0 = any(d.get('kind') == 'VarDecl' and d.get('name') == v and any(x.get('kind') == 'IntegerLiteral' and int(x['value']) >= 0 for x in astutil.walk(d)) for d in astutil.walk(l['inner'][0])) if l['inner'][0] else False
+                                if size is not None and K <= size and not writes and inc_ok and (init0 or unsigned_or_zero): ok = True
+                                else: ok = False; why = f'{G}[{v}] inside for ({cs}) with {size} elements' + (', index also written in the body' if writes else '')
+                                break
+                        elif G == 'errors' and it == 'eav->errcode':
+                            ok = True
+                        if ok is None:
+                            raise AnalysisBroken(f'{key}:{fname}: {G}[{it}] at {where(n)}: an index expression the table-subscript rule (R6.10) has no bound for')
+                        r610.instance(site, ok=ok, wclass='table-index', what=f'{fname}: {why} ({where(n)})')
+                for c in n.get('inner', []) or []:
+                    if isinstance(c, dict): visit(c, stack + [n])
+            visit(f, [])
     # ---- R6.5 = C14 R14.2 (stores) and R14.1 (no globals), run here as part of the bundle
     from rules import c14
     c14.run(ck)
